@@ -2,11 +2,18 @@ use crate::acme_proto::structs::{AccountResponse, Authorization, Directory, Orde
 use crate::endpoint::Endpoint;
 use crate::http;
 use acme_common::error::Error;
+#[cfg_attr(feature = "breard_r_acmed_verif", allow(unused_imports))]
 use std::{thread, time};
 
 macro_rules! pool_object {
 	($obj_type: ty, $obj_name: expr, $endpoint: expr, $url: expr, $data_builder: expr, $break: expr) => {{
 		for _ in 0..crate::DEFAULT_POOL_NB_TRIES {
+			#[cfg(feature = "breard_r_acmed_verif")]
+			crate::verif::on_thread_sleep(
+				"poll",
+				time::Duration::from_secs(crate::DEFAULT_POOL_WAIT_SEC),
+			);
+			#[cfg(not(feature = "breard_r_acmed_verif"))]
 			thread::sleep(time::Duration::from_secs(crate::DEFAULT_POOL_WAIT_SEC));
 			let response = http::post_jose($endpoint, $url, $data_builder).await?;
 			let obj = response.json::<$obj_type>()?;
